@@ -34,7 +34,12 @@ Step1 ==
               LET len == Get(dg, <<e.s, e.k>>, [len |-> -1, seen |-> 0]).len IN
               Same(Check(e.ib = len - e.n /\ e.n <= len, "NoCarryOver", <<e.s, e.k, e.op, e.n, e.ib, len>>, viols))
          [] e.ev = "DReply" -> Step(dg, laddr, cur, issued \cup {<<e.s, e.k, e.kind, e.to>>}, got, viols)
-         [] e.ev = "DReplied" -> Same(Check(e.err # "nil" \/ e.n = 12, "ReplyCountExact", <<e.s, e.k, e.n>>, viols))
+         [] e.ev = "DReplied" -> Same(Check(e.err # "nil" \/ e.n = (IF "want" \in DOMAIN e THEN e.want ELSE 12), "ReplyCountExact", <<e.s, e.k, e.n>>, viols))
+         \* an empty answer carries no identity: it is matched with any empty answer still owed to that socket
+         [] e.ev = "DRecv" /\ e.len = 0 ->
+              LET cand == {r \in issued \ got : r[3] = "E" /\ r[4] = e.by} IN
+              IF cand = {} THEN Same(Check(FALSE, "ReplyToRightPeer", <<"empty datagram nobody sent", e.by>>, viols))
+              ELSE Step(dg, laddr, cur, issued, got \cup {CHOOSE r \in cand : TRUE}, viols)
          [] e.ev = "DRecv" ->
               LET r == <<e.s, e.k, e.kind, e.by>>
                   \* one datagram with exactly the given bytes, at the socket it was addressed to, once
